@@ -60,10 +60,15 @@ func DecodeMeta(hdr BoxHeader, startPos uint64, r io.Reader) (Box, error) {
 // DecodeMetaSR decodes a MetaBox in either MPEG or QuickTime version
 func DecodeMetaSR(hdr BoxHeader, startPos uint64, sr bits.SliceReader) (Box, error) {
 	b := MetaBox{}
+	if hdr.payloadLen() < 4 {
+		return nil, fmt.Errorf("meta box payload too short: %d", hdr.payloadLen())
+	}
 	lookAheadData := make([]byte, 4)
-	err := sr.LookAhead(4, lookAheadData)
-	if err != nil {
-		return nil, fmt.Errorf("could not look ahead in Meta box")
+	if hdr.payloadLen() >= 8 { // Only look inside the box. Without room for a child, it cannot be a QuickTime atom
+		err := sr.LookAhead(4, lookAheadData)
+		if err != nil {
+			return nil, fmt.Errorf("could not look ahead in Meta box")
+		}
 	}
 	var offset uint64 = 8
 	if bytes.Equal(lookAheadData, []byte("hdlr")) {
